@@ -1,4 +1,5 @@
 //! bpv: property-based / fuzzing verification harness for tari_bulletproofs_plus (see /verif/DESIGN.md).
+pub mod alloc;
 pub mod eng;
 pub mod fp;
 pub mod gen;
@@ -7,3 +8,6 @@ pub mod props;
 pub mod refimpl;
 pub mod runner;
 pub mod tapx;
+
+#[global_allocator]
+static GLOBAL: alloc::Tracker = alloc::Tracker;
